@@ -16,6 +16,7 @@ from engine import facts as F
 from engine import load
 from engine import plumbing as P
 from engine import sx
+from engine import terms as T
 from engine import witness as W
 
 LEVEL = "proof"
@@ -533,6 +534,88 @@ def rule_loops(rep, db, cfg):
         verdict(fn, "either::loop|%s" % ",".join(fn.get("targs") or [])[:80], bad, len(ps))
 
 
+def _split_targs(t):
+    """template arguments of 'X<a, b<c, d>, e>' at depth 1"""
+    i = t.find("<")
+    if i < 0 or not t.rstrip().rstrip("&").rstrip().endswith(">"):
+        return []
+    body = t[i + 1:t.rstrip().rstrip("&").rstrip().rfind(">")]
+    out, depth, cur = [], 0, ""
+    for ch in body:
+        if ch == "<":
+            depth += 1
+        elif ch == ">":
+            depth -= 1
+        if ch == "," and depth == 0:
+            out.append(cur.strip())
+            cur = ""
+        else:
+            cur += ch
+    if cur.strip():
+        out.append(cur.strip())
+    return out
+
+
+def rule_variant_match(rep, db):
+    """variant::match(v, f_1 ... f_n): the visitor applied by variant::apply calls, for the alternative of type T_i, exactly the
+    i-th function (position of T_i in the variant's type list) with that alternative forwarded with the variant's category"""
+    seen = set()
+    for fn in db.fns("fcppt::variant::match"):
+        u = fn["_unit"]
+        ta = fn.get("targs") or []
+        if not ta or tuple(ta) in seen:
+            continue
+        seen.add(tuple(ta))
+        vt = ta[0]
+        types = [M_strip(x) for x in _split_targs(vt.replace("const ", "").strip())]
+        key = "variant::match<%s>" % vt.replace("fcppt::variant::", "").replace("drv_oev::", "")
+        why = None
+        applies = [n for n in F.walk(fn.get("body"), into_lambdas=False) if n.get("k") == "call" and (T.callee_qn(u, n) or "") == "fcppt::variant::apply"]
+        lams = [x for x in F.walk(fn.get("body"), into_lambdas=False) if x.get("k") == "lambda"]
+        if len(applies) != 1 or len(lams) != 1:
+            why = "match is not a single variant::apply of one visitor"
+        else:
+            a1 = T.show(T.norm(u, applies[0]["args"][-1]))
+            if fn["params"][0]["name"] not in a1:
+                why = "variant::apply is not given the matched variant (%s)" % a1
+            ops = lams[0].get("ops", [])
+            if not why and len(ops) != len(types):
+                why = "the visitor is instantiated for %d alternatives, the variant has %d" % (len(ops), len(types))
+            for op in ops if not why else []:
+                at = M_strip(u.ty(op["params"][0]["t"]) or "")
+                if at not in types:
+                    why = "visitor instantiated for %s, which is not an alternative of %s" % (at, types)
+                    break
+                want = types.index(at)
+                gets = [(c, T.callee_decl(u, c)) for c in F.walk(op.get("body")) if c.get("k") == "call" and (T.callee_qn(u, c) or "") == "fcppt::tuple::get"]
+                fwd = [(c, T.callee_decl(u, c)) for c in F.walk(op.get("body")) if c.get("k") == "call" and (T.callee_qn(u, c) or "") in ("fcppt::move_if_rvalue", "std::forward")]
+                if len(gets) != 1:
+                    why = "the visitor does not select exactly one function"
+                    break
+                got = int(re.sub(r"\D", "", (gets[0][1].get("targs") or ["-1"])[0]) or -1)
+                if got != want:
+                    why = "alternative %s (position %d of the variant's types) is dispatched to function %d" % (at, want, got)
+                    break
+                if len(fwd) != 1 or M_strip((fwd[0][1].get("targs") or [""])[0]) != M_strip(vt) or \
+                        ((fwd[0][1].get("targs") or [""])[0].strip().endswith("&") != vt.strip().endswith("&")):
+                    why = "the alternative is not forwarded with the variant's own value category (move_if_rvalue<%s>)" % ((fwd[0][1].get("targs") or ["?"])[0] if fwd else "?")
+                    break
+                root = T.unwrap(u, fwd[0][0]["args"][0])
+                if root is None or root.get("k") != "ref" or root.get("id") != op["params"][0]["id"]:
+                    why = "the selected function is not applied to the visited alternative"
+                    break
+        (rep.fail if why else rep.ok)("VMATCH", key, F.primary_site(fn), F.describe(fn)[:200], **({"why": why} if why else {"how": "T_i -> f_i", "detail": {"alternatives": len(types)}}))
+
+
+def M_strip(t):
+    t = (t or "").strip()
+    while t.endswith("&"):
+        t = t[:-1].strip()
+    if t.startswith("const "):
+        t = t[6:]
+    return t.replace(" >", ">").strip()
+
+
 def main(rep, tier, only):
     db = load.load(tier, lib=False, drivers=["drv_oev"])
     rep.extra.update(db.stats())
@@ -547,6 +630,8 @@ def main(rep, tier, only):
     rep.rule("LOOP", "loop-shaped combinators on every path of a twice-unrolled run-time range: sequence = first empty / failing element in "
                      "iteration order, else every payload once in order; cat = exactly the engaged payloads in order; first_success = functions "
                      "in order, stop at the first success, else all failures in order; loop = next() until failure, body once per success", floor=6)
+    rep.rule("VMATCH", "variant::match is one variant::apply of a visitor that, for the alternative of type T_i, calls exactly the i-th function "
+                       "(position of T_i in the variant's type list) with the alternative forwarded with the variant's value category", floor=3)
     rep.rule("VCMP", "variant::compare: same alternative => the comparator is invoked exactly once with (payload of left, payload of right) "
                      "in that order and its result returned; different alternatives => false without invoking it", floor=1)
     rep.rule("TRY", "either::try_call: the function is called exactly once inside the try block and its result wrapped as success; the handler "
@@ -566,6 +651,8 @@ def main(rep, tier, only):
         rule_pack(rep, db, cfg, "fcppt::either::apply", "either")
     if only in (None, "LOOP"):
         rule_loops(rep, db, cfg)
+    if only in (None, "VMATCH"):
+        rule_variant_match(rep, db)
     if only in (None, "VCMP"):
         rule_variant_compare(rep, db, cfg)
     if only in (None, "TRY"):
